@@ -214,7 +214,8 @@ class _BorrowOps:
             return self.attr(args[0], args[1], node, env)
         if func == "hasattr" and len(args) == 2 and isinstance(args[1], str):
             if args[0] == "ITER":
-                return self.has
+                # ``has``: True / False (asend and athrow both present / absent) or the set of those present
+                return (args[1] in self.has) if isinstance(self.has, frozenset) else self.has
             if args[0] == "SELF":
                 return ("@f:" + args[1]) in env
             return UNKNOWN
@@ -314,7 +315,16 @@ def close_helper(ctx):
     return None
 
 
-def _init_outcomes(ctx, has: bool):
+HAS_CASES = (True, False, frozenset({"asend"}), frozenset({"athrow"}))
+
+
+def _has_text(has) -> str:
+    if isinstance(has, frozenset):
+        return f"underlying iterator with {'/'.join(sorted(has))} only"
+    return f"underlying iterator {'with' if has else 'without'} asend/athrow"
+
+
+def _init_outcomes(ctx, has):
     from asl.absint import Machine
     from .common import make_resolver
     info = ctx.pkg.cls(BORROW_CLASSES[0])
@@ -328,10 +338,10 @@ def _init_outcomes(ctx, has: bool):
 def r07_2(ctx) -> None:
     info = ctx.pkg.cls(BORROW_CLASSES[0])
     gen = ("gen", "ITER")
-    for has in (True, False):
+    for has in HAS_CASES:
         init, outs = _init_outcomes(ctx, has)
         ctx.count("borrow_init_cells")
-        cell = f"underlying iterator {'with' if has else 'without'} asend/athrow"
+        cell = _has_text(has)
         ctx.check(bool(outs) and all(oc.terminal.kind == "exit" for oc in outs), "R07.2", init, "__init__",
                   f"[{cell}] the handle's construction was evaluated")
         for oc in outs:
@@ -377,18 +387,24 @@ def r07_3(ctx) -> None:
                  "intermediate generator and then redirects asend/athrow: after closing, the forwarded methods still "
                  "reach the underlying iterator")
         return
-    for has in (True, False):
+    # what closing does is evaluated on the handle's ``aclose`` itself (it may take a path that never reaches the
+    # helper), for underlying iterators with both, none or just one of asend / athrow
+    closer = info.methods["aclose"]
+    for has in HAS_CASES:
         init, outs = _init_outcomes(ctx, has)
         for oc in outs:
             if oc.terminal.kind != "exit":
                 continue
             ops = _BorrowOps(has, _module_constants(helper.module))
             env = {k: v for k, v in oc.env.items() if k.startswith("@f:")}
-            env[helper.param_names()[0]] = "SELF"
-            for oc2 in Machine(cfg_of(helper), ops, resolver=make_resolver(ctx, helper, ops)).run(env):
+            env[closer.param_names()[0]] = "SELF"
+            for oc2 in Machine(cfg_of(closer), ops, resolver=make_resolver(ctx, closer, ops, coroutines=True)).run(env):
                 ctx.count("borrow_close_cells")
-                cell = f"underlying iterator {'with' if has else 'without'} asend/athrow"
+                cell = _has_text(has)
                 awaits = oc2.env.get("@awaits", ())
+                rv = oc2.returned if oc2.terminal.kind == "exit" else None
+                if closer.kind == "sync" and isinstance(rv, tuple) and rv[:1] == ("call",):
+                    awaits = awaits + (rv,)  # the awaitable aclose() hands back is awaited by its caller
                 ctx.check(oc2.terminal.kind == "exit" and awaits == (("call", ("meth", gen, "aclose")),), "R07.3", helper,
                           helper.node.name, f"[{cell}] closing awaits exactly the intermediate generator's aclose()",
                           witness=str(awaits))
